@@ -1,3 +1,4 @@
+import Treepath.Proofs.Cascade
 import Treepath.Proofs.MutateLemmas
 /- C09 — cascade creates the missing containers and only those -/
 namespace Treepath.C09
@@ -89,5 +90,52 @@ theorem written_slot_reads_back (h h' : Heap) (s : Step Val) (pm m : MNode Val) 
   refine ⟨vertexSet_reads_back h h' s pm m v hs, ?_⟩
   obtain ⟨_, _, _, hm, _, _⟩ := vertexSet_frame h h' s pm m v hs
   rw [hm]; rfl
+
+/-! ### cascade as a function on the JSON tree -/
+
+/-- **the whole statement, on the tree**: on a document that is a tree (`DocInv`), a successful
+`set_(p, v, doc, cascade=True)` along a path `p` of keys and indices makes the document unfold to
+`J.cascadeAt j p jv` — every level that exists reused, for each missing level (and only for
+those) an empty dict before a key / an empty list before an index, `jv` stored at the end —
+the returned match sits at `p` holding `v` itself, and the document is again such a tree
+(`CascadeOut`: also what the store looks like for any value that shares nothing with it). -/
+theorem cascade_is_the_tree_cascade (root : Val) (names : List Name) (h h' : Heap) (v : Val) (m : MNode Val) (j jv : J)
+    (hi : DocInv h root j) (hv : UnfJ h jv v) (hvn : (fpJ h jv v).Nodup) (hfresh : ∀ x ∈ fpJ h jv v, x ∉ fpJ h j root)
+    (hset : setMatch (fun _ => names.map nameStepV) (.doc root) true h v = (h', .ok m)) :
+    ∃ j', J.cascadeAt j names jv = some j' ∧ CascadeOut root h h' j j' jv v m names := by
+  simp only [setMatch, List.length_map] at hset
+  have := cascade_refines root names names.length h h' v m j jv (Nat.le_refl _) hi hv hvn hfresh hset
+  simpa using this
+
+/-- **`get(p, doc)` is `v` afterwards** -/
+theorem after_cascade_the_value_is_there (ns : List Name) (j j' v : J) (h : J.cascadeAt j ns v = some j') :
+    walk J.view j' ns = some v :=
+  cascadeAt_reads_back ns j j' v h
+
+/-- when every level exists the cascade is the plain assignment (nothing is created) … -/
+theorem cascade_reuses_what_exists (ns : List Name) (j : J) (nm : Name) (v c : J) (hw : walk J.view j ns = some c) :
+    J.cascadeAt j (ns ++ [nm]) v = J.setAt j ns nm v :=
+  cascade_snoc_found ns j nm v c hw
+
+/-- … and when a level is missing, the missing levels are created down to an empty container
+of the kind the last name needs, then the value is assigned in it -/
+theorem cascade_creates_what_is_missing (ns : List Name) (j : J) (nm : Name) (v : J) (hne : ns ≠ [])
+    (hw : walk J.view j ns = none) :
+    J.cascadeAt j (ns ++ [nm]) v = (J.cascadeAt j ns (emptyFor nm)).bind (fun j1 => J.setAt j1 ns nm v) :=
+  cascade_snoc_missing ns j nm v hne hw
+
+/-- a newly created container holds exactly the one entry the path names; a new list can
+only be appended to -/
+theorem new_container_holds_one_entry (nm : Name) (v : J) :
+    J.cascadeAt (emptyFor nm) [nm] v =
+      match nm with
+      | .key k => some (.obj [(k, v)])
+      | .idx i => if i = 0 then some (.arr [v]) else none :=
+  cascade_into_new_container nm v
+
+/-- computed: `set_(path.a.b[0], 7, {"x": 1}, cascade=True)` -/
+example : J.cascadeAt (.obj [("x", .int 1)]) [.key "a", .key "b", .idx 0] (.int 7)
+    = some (.obj [("x", .int 1), ("a", .obj [("b", .arr [.int 7])])]) := by
+  simp [J.cascadeAt, childAt, J.view, List.lookup, emptyFor, J.setName, J.putChild, kvsSet, normIndex]
 
 end Treepath.C09
